@@ -461,6 +461,17 @@ class DestHandler:
             raise PduIgnoredForDest(
                 PduIgnoredForDestReason.INVALID_MODE_FOR_ACKED_MODE_PACKET, packet
             )
+        if (
+            packet.pdu_type == PduType.FILE_DIRECTIVE
+            and packet.directive_type == DirectiveType.METADATA_PDU  # type: ignore
+        ):
+            try:
+                # The file names are byte strings on the wire and decoded on access.
+                _ = (packet.source_file_name, packet.dest_file_name)  # type: ignore
+            except UnicodeDecodeError as e:
+                raise PduIgnoredForDest(
+                    PduIgnoredForDestReason.METADATA_FILE_NAME_NOT_DECODABLE, packet
+                ) from e
 
     def get_next_packet(self) -> PduHolder | None:
         """Retrieve the next packet which should be sent to the remote CFDP source entity."""
